@@ -168,7 +168,7 @@ def rule_a2(ctx):
     eb = ctx.body("compile::extend_to_bits")
     cw = [(b, t) for b, t in eb.calls() if mir.last_seg(mir.callee(t) or "") == "copy_within"]
     fills = [(b, t) for b, t in eb.calls() if mir.last_seg(mir.callee(t) or "") == "fill"]
-    if not cw or len(fills) < 2:
+    if not cw or not fills:
         raise AnchorMissing("A2: extend_to_bits no longer shifts with copy_within and fills (found %d / %d)" % (len(cw), len(fills)))
 
     def origin_key(op):
